@@ -119,6 +119,26 @@ MUTANTS = [
      "note": "all scenarios share the base model's scheduler object (its delayed_events list and running flag)"},
     {"id": "c12-skip-first-agent-when-many", "property": "C12", "file": SCH,
      "old": "        for agent in model.agents:\n            agent.handle_events", "new": "        for agent in (model.agents if len(model.agents) < 6 else model.agents[1:]):\n            agent.handle_events"},
+    # ---- C13
+    {"id": "c13-mean-over-type-count", "property": "C13", "file": DC,
+     "old": "                                    self.agent_statistics[time][agent.agent_type][agent.state][\"count\"]\n                        )",
+     "new": "                                    sum(s[\"count\"] for s in self.agent_statistics[time][agent.agent_type].values())\n                        )"},
+    {"id": "c13-min-starts-at-zero", "property": "C13", "file": DC,
+     "old": "                                \"total\": 0, \"max\": None, \"min\": None}", "new": "                                \"total\": 0, \"max\": None, \"min\": 0}",
+     "edits": [("                            [agent_property_name][\"min\"]) = agent_property_value[\"value\"]\n\n\n                        else:",
+                "                            [agent_property_name][\"min\"]) = min(0, agent_property_value[\"value\"])\n\n\n                        else:")]},
+    {"id": "c13-fillna-removed", "property": "C13", "file": HR,
+     "old": "        return pd.DataFrame(output, index=list(data.keys())).fillna(0)", "new": "        return pd.DataFrame(output, index=list(data.keys()))"},
+    {"id": "c13-frame-loses-empty-times", "property": "C13", "file": HR,
+     "old": "        return pd.DataFrame(output, index=list(data.keys())).fillna(0)", "new": "        return pd.DataFrame(output).fillna(0)"},
+    {"id": "c13-count-skips-first-of-state", "property": "C13", "file": DC,
+     "old": "                self.agent_statistics[time][agent.agent_type][agent.state] = {\"count\": 0}", "new": "                self.agent_statistics[time][agent.agent_type][agent.state] = {\"count\": 0 if len(agents) < 5 else -1}"},
+    {"id": "c13-max-of-integers-truncated", "property": "C13", "file": DC,
+     "old": "                            [agent_property_name][\"max\"]) = (max(", "new": "                            [agent_property_name][\"max\"]) = int(max(",
+     "note": "max truncated to int: wrong for fractional Double properties"},
+    {"id": "c13-json-mean-is-total", "property": "C13", "file": HR,
+     "old": "abm_results_dict[scenario.scenario_manager][scenario.name][\"agents\"][agent][state][\"properties\"][agent_property][\"mean\"] = df[state+\"_\"+agent_property + \"_\" + property_type].to_dict()",
+     "new": "abm_results_dict[scenario.scenario_manager][scenario.name][\"agents\"][agent][state][\"properties\"][agent_property][\"mean\"] = df[state+\"_\"+agent_property + \"_total\"].to_dict() if (state+\"_\"+agent_property + \"_total\") in df.columns else df[state+\"_\"+agent_property + \"_\" + property_type].to_dict()"},
     # ---- C14
     {"id": "c14-count-per-state-by-position", "property": "C14", "file": M,
      "old": "            if self.agent(agent_id).state == state:", "new": "            if self.agents[agent_id].state == state:"},
